@@ -1,7 +1,13 @@
 /* Proof unit for C13: contracts + the real source/uri.c (and source/byte_buf.c for the helpers it calls). */
 #include "contracts/uri.h"
+/* body for the plain (bounded/complete) harness units; the contract units replace the call by its contract instead */
+void aws_raise_error_private(int err) { g_last_error = err; g_raise_count++; }
 #include "source/byte_buf.c"
+/* ghost instrumentation of the per-byte call in s_encode_cursor_to_buffer (the macro only fires where the parameter name
+ * is followed by '(' , i.e. at the call; the recording functions write nothing but the ghost struct g_e) */
+#define append_canonicalized_character(b, v) ENC_GHOST_HOOK(append_canonicalized_character, b, v)
 #include "source/uri.c"
+#undef append_canonicalized_character
 
 #define GHOSTS() do { GHOST_RESET(); g_on = true; g_k = nondet_size_t(); g_old = nondet_u8(); g_j = nondet_size_t(); g_src = nondet_u8(); } while (0)
 
@@ -23,7 +29,7 @@ void h_param_char(void) {
     if (v == '/') CANARY("slash escaped"); else if (v == '~') CANARY("tilde kept"); else if (v == 'a') CANARY("alnum kept");
 }
 
-#define GHOSTS_ENC() do { GHOSTS(); g_ecnt = 0; g_ei = nondet_size_t(); } while (0)
+#define GHOSTS_ENC() do { GHOSTS(); g_e.cnt = 0; g_e.i = nondet_size_t(); } while (0)
 void h_encode_path(void) {
     struct aws_byte_buf *b; const struct aws_byte_cursor *c;
     GHOSTS_ENC();
@@ -35,4 +41,116 @@ void h_encode_param(void) {
     GHOSTS_ENC();
     int r = aws_byte_buf_append_encoding_uri_param(b, c);
     if (r == 0) CANARY("encoded"); else CANARY("refused");
+}
+
+/* ------------------------------------------------------------------ per-byte round trip (complete: all 256 bytes, both encoders)
+ * encode one byte with the real per-byte encoder, check the class of what was produced, decode it with the real decoder. */
+static struct aws_allocator s_unused_allocator; /* reserve functions insist on a non-NULL allocator; never called: capacity suffices */
+#define IS_ALLOWED_OUT(c, path) (SPEC_UNRESERVED(c) || ((path) && (c) == '/'))
+void h_char_roundtrip(void) {
+    GHOST_RESET(); g_e.cnt = 0; g_e.i = nondet_size_t();
+    uint8_t v = nondet_u8();
+    bool path = nondet_bool();
+    uint8_t enc[3];
+    struct aws_byte_buf b = {.buffer = enc, .len = 0, .capacity = 3, .allocator = &s_unused_allocator};
+    if (path) s_unchecked_append_canonicalized_path_character(&b, v); else s_raw_append_canonicalized_param_character(&b, v);
+    __CPROVER_assert(b.len == 1 || b.len == 3, "one byte or one escape");
+    if (b.len == 1) {
+        __CPROVER_assert(enc[0] == v && IS_ALLOWED_OUT(v, path), "kept bytes are unreserved characters (or '/' in a path)");
+    } else {
+        __CPROVER_assert(!IS_ALLOWED_OUT(v, path), "only bytes outside the kept class are escaped");
+        __CPROVER_assert(enc[0] == '%' && SPEC_IS_HEXU(enc[1]) && SPEC_IS_HEXU(enc[2]), "escape is '%' and two upper-case hex digits");
+    }
+    uint8_t dec[3];
+    struct aws_byte_buf o = {.buffer = dec, .len = 0, .capacity = 3, .allocator = &s_unused_allocator};
+    struct aws_byte_cursor c = {.ptr = enc, .len = b.len};
+    int r = aws_byte_buf_append_decoding_uri(&o, &c);
+    __CPROVER_assert(r == AWS_OP_SUCCESS && o.len == 1 && dec[0] == v, "decoding the encoding of a byte gives the byte back");
+    if (b.len == 1) CANARY("kept"); else CANARY("escaped");
+}
+
+/* ------------------------------------------------------------------ whole strings, BOUNDED (input <= ENC_N bytes, all byte values,
+ * every starting length 0..ENC_PRE of the output buffer): layout against the specification, then decode gives the input back */
+#ifndef ENC_N
+#define ENC_N 4
+#endif
+#define ENC_PRE 3
+void h_encode_decode_bounded(void) {
+    GHOST_RESET(); g_e.cnt = 0; g_e.i = nondet_size_t();
+    bool path = nondet_bool();
+    uint8_t in[ENC_N];
+    size_t n = nondet_size_t(); __CPROVER_assume(n <= ENC_N);
+    uint8_t out[ENC_PRE + 3 * ENC_N], out0[ENC_PRE];
+    size_t pre = nondet_size_t(); __CPROVER_assume(pre <= ENC_PRE);
+    for (size_t i = 0; i < ENC_PRE; i++) out0[i] = out[i];
+    struct aws_byte_buf b = {.buffer = out, .len = pre, .capacity = ENC_PRE + 3 * ENC_N, .allocator = &s_unused_allocator};
+    struct aws_byte_cursor c = {.ptr = in, .len = n}; /* the NULL/0 view is unit encode_null_view */
+    int r = path ? aws_byte_buf_append_encoding_uri_path(&b, &c) : aws_byte_buf_append_encoding_uri_param(&b, &c);
+    __CPROVER_assert(r == AWS_OP_SUCCESS && b.buffer == out && b.capacity == ENC_PRE + 3 * ENC_N, "encoder succeeds in place when 3n bytes are free");
+    /* specification: byte by byte */
+    size_t pos = pre;
+    for (size_t i = 0; i < ENC_N; i++) {
+        if (i < n) {
+            if (IS_ALLOWED_OUT(in[i], path)) {
+                __CPROVER_assert(pos < b.len && out[pos] == in[i], "kept byte copied");
+                pos += 1;
+            } else {
+                __CPROVER_assert(pos + 2 < b.len && out[pos] == '%' && out[pos + 1] == SPEC_HEXU(in[i] >> 4) && out[pos + 2] == SPEC_HEXU(in[i] & 0x0F), "escaped byte is %XX, upper case");
+                pos += 3;
+            }
+        }
+    }
+    __CPROVER_assert(b.len == pos, "new length = old length + sum of the widths");
+    for (size_t i = 0; i < ENC_PRE; i++) __CPROVER_assert(i >= pre || out[i] == out0[i], "bytes below the old length untouched");
+    /* decode */
+    uint8_t dec[ENC_N];
+    struct aws_byte_buf o = {.buffer = dec, .len = 0, .capacity = ENC_N, .allocator = &s_unused_allocator};
+    struct aws_byte_cursor e = {.ptr = out + pre, .len = b.len - pre};
+    /* the decoder reserves as many bytes as its INPUT has, which may exceed ENC_N: give it room */
+    uint8_t dec_big[3 * ENC_N];
+    o.buffer = dec_big; o.capacity = 3 * ENC_N;
+    int r2 = aws_byte_buf_append_decoding_uri(&o, &e);
+    __CPROVER_assert(r2 == AWS_OP_SUCCESS && o.len == n, "decode succeeds and yields n bytes");
+    for (size_t i = 0; i < ENC_N; i++) __CPROVER_assert(i >= n || dec_big[i] == in[i], "decode(encode(x)) == x");
+    if (n == ENC_N) CANARY("full length"); else if (n == 0) CANARY("empty"); else CANARY("short");
+}
+
+void h_decode(void) {
+    struct aws_byte_buf *b; const struct aws_byte_cursor *c;
+    GHOSTS();
+    int r = aws_byte_buf_append_decoding_uri(b, c);
+    if (r == 0) CANARY("decoded"); else CANARY("refused");
+}
+
+/* ------------------------------------------------------------------ decoder against a reference decoder, BOUNDED (input <= DEC_N bytes) */
+#ifndef DEC_N
+#define DEC_N 6
+#endif
+#define REF_ISHEX(c) (((c) >= '0' && (c) <= '9') || ((c) >= 'a' && (c) <= 'f') || ((c) >= 'A' && (c) <= 'F'))
+#define REF_HEXVAL(c) ((uint8_t)((c) <= '9' ? (c) - '0' : ((c) | 0x20) - 'a' + 10))
+void h_decode_bounded(void) {
+    GHOST_RESET();
+    uint8_t in[DEC_N];
+    size_t n = nondet_size_t(); __CPROVER_assume(n <= DEC_N);
+    uint8_t out[2 + DEC_N];
+    size_t pre = nondet_size_t(); __CPROVER_assume(pre <= 2);
+    uint8_t o0 = out[0], o1 = out[1];
+    struct aws_byte_buf o = {.buffer = out, .len = pre, .capacity = 2 + DEC_N, .allocator = &s_unused_allocator};
+    struct aws_byte_cursor c = {.ptr = in, .len = n};
+    int r = aws_byte_buf_append_decoding_uri(&o, &c);
+    /* reference: RFC 3986 2.1 pct-encoded = "%" HEXDIG HEXDIG; everything else is literal */
+    uint8_t ref[DEC_N]; size_t m = 0; bool ok = true;
+    for (size_t i = 0; i < DEC_N;) {
+        if (i >= n || !ok) break;
+        if (in[i] != '%') { ref[m++] = in[i]; i += 1; }
+        else if (i + 2 < n && REF_ISHEX(in[i + 1]) && REF_ISHEX(in[i + 2])) { ref[m++] = (uint8_t)((REF_HEXVAL(in[i + 1]) << 4) | REF_HEXVAL(in[i + 2])); i += 3; }
+        else ok = false;
+    }
+    __CPROVER_assert((r == AWS_OP_SUCCESS) == ok, "decode succeeds exactly when every '%' is followed by two hex digits");
+    if (ok) {
+        __CPROVER_assert(o.len == pre + m, "decoded length");
+        for (size_t i = 0; i < DEC_N; i++) __CPROVER_assert(i >= m || out[pre + i] == ref[i], "decoded bytes equal the reference");
+    }
+    __CPROVER_assert((pre < 1 || out[0] == o0) && (pre < 2 || out[1] == o1) && o.buffer == out, "bytes below the old length untouched");
+    if (!ok) CANARY("malformed refused"); else if (m < n) CANARY("escape decoded"); else CANARY("literal");
 }
